@@ -214,6 +214,47 @@ pub fn run(out: &mut Out, seed: u64, tier: &str) {
     }
     out.stat("exact_tie_structures_under_exact_motions", n_ties);
     out.case("rigid summary", "-");
+    // force fields evaluated far from where they were built: the atoms scattered in a box of 6-60 A (what a 3-D build starts from:
+    // the connectivity is fixed, the bonds are tens of Angstrom long, the forces are enormous). Invariance does not care: the
+    // energy is unchanged by a rigid motion, the gradient turns with it, sums to zero and exerts no torque
+    let mut n_scattered = 0usize;
+    for (k, m) in library().iter().enumerate() {
+        if m.n() < 2 || m.n() > 14 || (tier != "thorough" && k % 2 == 1) { continue; }
+        let mol = match catch(|| m.build()) { Some(x) => x, None => continue };
+        for kind in ["rb", "uff"] {
+            let mut ff = match FF::build(kind, &mol) { Some(f) => f, None => continue };
+            for box_l in [6.0f64, 25.0, 60.0] {
+                let xs: Vec<[f64; 3]> = (0..m.n()).map(|_| [rng.range(0.0, box_l), rng.range(0.0, box_l), rng.range(0.0, box_l)]).collect();
+                let sc = Mol { name: m.name.clone(), zs: m.zs.clone(), xs };
+                if sc.min_distance() < 0.8 { continue; }
+                let r = random_rotation(&mut rng);
+                let t = [rng.range(-5.0, 5.0), rng.range(-5.0, 5.0), rng.range(-5.0, 5.0)];
+                let (x1, x2) = (sc.points(), moved(&sc, &r, t).points());
+                let (e1, g1) = (ff.energy(&x1), ff.gradient(&x1));
+                let (e2, g2) = (ff.energy(&x2), ff.gradient(&x2));
+                if !e1.is_finite() || !g1.iter().all(|v| v.is_finite()) || !e2.is_finite() || !g2.iter().all(|v| v.is_finite()) { continue; }
+                // the periodic and inverse-sine pieces of UFF are badly conditioned at arbitrary geometries: only RB and well-conditioned UFF cases
+                if kind == "uff" && !well_conditioned(&ff.terms(), &x1) { continue; }
+                n_scattered += 1;
+                let gmax = g1.iter().fold(0.0f64, |a, v| a.max(v.abs())).max(1e-6);
+                let replay = format!("{} force field built on\n{}evaluated with the atoms scattered in a {} A box:\n{}and after rotation {:?} translation {:?}", kind, m.xyz_text(), box_l, sc.xyz_text(), r, t);
+                if !((e1 - e2).abs() <= 1e-9 * e1.abs().max(1.0)) { out.oracle_fail(&format!("{}: energy at scattered coordinates changes under a rigid motion: {} vs {}", kind, e1, e2), &replay); continue; }
+                let mut net = [0.0f64; 3]; let mut tq = [0.0f64; 3]; let mut worst = 0.0f64;
+                for a in 0..m.n() {
+                    let g = [g1[3 * a], g1[3 * a + 1], g1[3 * a + 2]];
+                    for c in 0..3 { net[c] += g[c]; }
+                    let p = sc.xs[a];
+                    tq[0] += p[1] * g[2] - p[2] * g[1]; tq[1] += p[2] * g[0] - p[0] * g[2]; tq[2] += p[0] * g[1] - p[1] * g[0];
+                    for c in 0..3 { let rot = r[c][0] * g[0] + r[c][1] * g[1] + r[c][2] * g[2]; worst = worst.max((rot - g2[3 * a + c]).abs()); }
+                }
+                let lever = box_l.max(1.0);
+                if net.iter().any(|v| v.abs() > 1e-9 * gmax * m.n() as f64) { out.oracle_fail(&format!("{}: the gradient at scattered coordinates does not sum to zero: {:?} (largest component {:e})", kind, net, gmax), &replay); continue; }
+                if tq.iter().any(|v| v.abs() > 1e-8 * gmax * lever * m.n() as f64) { out.oracle_fail(&format!("{}: the gradient at scattered coordinates exerts a net torque: {:?} (largest component {:e})", kind, tq, gmax), &replay); continue; }
+                if worst > 1e-8 * gmax { out.oracle_fail(&format!("{}: the gradient at scattered coordinates does not turn with the molecule (off by {:e}, largest component {:e})", kind, worst, gmax), &replay); }
+            }
+        }
+    }
+    out.stat("force_fields_at_scattered_coordinates", n_scattered);
     out.stat("moved_copies_constructed_from_files", n_files);
     out.stat("far_translations_2^20_to_2^29", n_far);
     out.stat("force_fields_checked", n);
